@@ -876,7 +876,7 @@ func isTnAllowed(
 }
 
 func isTnAnnounce(title []byte) (isValid bool) {
-	return bytes.Equal(title[:len(ptttype.TN_ANNOUNCE_BIG5)], ptttype.TN_ANNOUNCE_BIG5)
+	return bytes.HasPrefix(title, ptttype.TN_ANNOUNCE_BIG5)
 }
 
 // isModeBoard
